@@ -458,7 +458,7 @@ Lemma lex_parts_printed : forall m w, wf_word w -> forall fuel d rest,
   (length (print_word m w) < fuel)%nat ->
   lex_parts fuel (print_word m w ++ d :: rest) = Some (norm_word m w, d :: rest).
 Proof.
-  induction 1 as [|v w Hne Hv Hnl Hw IH|v Hv|v w Hv Hw IH|v w Hv Hw IH|b ps w Hps Hw IH|s n w Hp Hq Hw IH];
+  induction 1 as [|v w Hne Hv Hnl Hw IH|v Hv|v w Hv Hh Hw IH|v w Hv Hh Hw IH|b ps w Hps Hh Hw IH|s n w Hp Hq Hh Hw IH];
     intros fuel d rest Hd Hf.
   - (* end of word *)
     destruct fuel; [simpl in Hf; lia|]. simpl. rewrite (word_delim_break d Hd). reflexivity.
@@ -609,7 +609,7 @@ Qed.
 (* re-printing the re-lexed (= normalised) word gives the same bytes *)
 Lemma print_word_norm : forall m w, wf_word w -> print_word m (norm_word m w) = print_word m w.
 Proof.
-  induction 1 as [|v w Hne Hv Hnl Hw IH|v Hv|v w Hv Hw IH|v w Hv Hw IH|b ps w Hps Hw IH|s n w Hp Hq Hw IH];
+  induction 1 as [|v w Hne Hv Hnl Hw IH|v Hv|v w Hv Hh Hw IH|v w Hv Hh Hw IH|b ps w Hps Hh Hw IH|s n w Hp Hq Hh Hw IH];
     try reflexivity.
   - cbn [norm_word print_word]. unfold norm_lit. rewrite print_lit_idem_body by assumption. rewrite IH. reflexivity.
   - cbn [norm_word print_word]. unfold norm_lit. rewrite (print_lit_lone v Hv).
@@ -637,16 +637,16 @@ Example wf_example :
 Proof.
   apply wfw_lit; [discriminate| |exact I|].
   { apply wfl_plain; [reflexivity|unfold BS; lia|constructor]. }
-  apply wfw_param; [split; reflexivity|simpl; intros; discriminate|].
+  apply wfw_param; [split; reflexivity|simpl; intros; discriminate|simpl; lia|].
   apply wfw_lit; [discriminate| |exact I|].
   { apply wfl_plain; [reflexivity|unfold BS; lia|constructor]. }
-  apply wfw_dbl.
+  apply wfw_dbl; [|exact I|].
   { apply wfqs_param; [split; reflexivity|simpl; intros; discriminate|].
     apply wfqs_lit; [discriminate| |exact I|constructor].
     apply wfq_plain; try (unfold DQ, DOL, BQ, BS; lia).
     apply wfq_esc; [unfold NL; lia|constructor]. }
-  apply wfw_dsgl. { apply wfd_esc. constructor. }
-  apply wfw_param; [split; reflexivity|simpl; intros; discriminate|].
+  apply wfw_dsgl; [apply wfd_esc; constructor|exact I|].
+  apply wfw_param; [split; reflexivity|simpl; intros; discriminate|simpl; lia|].
   change [Lit [48; 92]] with [Lit ([48] ++ [BS])].
   apply wfw_lit_lone. apply wfl_plain; [reflexivity|unfold BS; lia|constructor].
 Qed.
